@@ -196,8 +196,8 @@ Fixpoint hist_tm (h : list tkop) : tmachine :=
 
 Lemma run_ops_hist ops : run_ops ops = hist_tm (rev ops).
 Proof.
-  unfold run_ops. rewrite <- (rev_involutive ops) at 1. rewrite fold_left_rev_right.
-  induction (rev ops) as [|o r IH]; cbn; [reflexivity|rewrite IH; reflexivity].
+  unfold run_ops. induction ops as [|x l IH] using rev_ind; [reflexivity|].
+  rewrite fold_left_app, rev_app_distr. cbn. rewrite IH. reflexivity.
 Qed.
 
 Fixpoint takes (h : list tkop) : nat :=
@@ -316,7 +316,7 @@ Proof.
   - split; [discriminate|]. intros (post & mid & pre & H & _). destruct post; discriminate H.
   - destruct o as [l|l|l i].
     + destruct ((line =? l) && (id =? takes r))%nat eqn:E.
-      * split; [discriminate|]. exfalso.
+      * split; [discriminate|]. intros H. exfalso.
         apply andb_true_iff in E. destruct E as [E1 E2]. apply Nat.eqb_eq in E1, E2. subst l id.
         destruct H as (post & mid & pre & H1 & H2 & _).
         destruct post as [|o post]; cbn in H1; [discriminate H1|]. inversion H1; subst.
@@ -332,7 +332,7 @@ Proof.
     + destruct (line =? l)%nat eqn:E.
       * apply Nat.eqb_eq in E; subst l. split.
         -- intros H. destruct (status r line id) as [[|]|] eqn:S; [| |discriminate H].
-           ++ apply IH in S. destruct S as (post & mid & pre & H1 & H2 & H3 & H4).
+           ++ destruct (proj1 IH eq_refl) as (post & mid & pre & H1 & H2 & H3 & H4).
               exists (TkMark line :: post), mid, pre. subst r. repeat split; auto.
               cbn. intros [Hc|Hc]; [discriminate Hc|auto].
            ++ apply status_false_iff in S. destruct S as (mid & pre & H1 & H2 & H3).
